@@ -294,3 +294,174 @@ func r04_8(c *Ctx, r *Report) {
 		report(name+" lands on the target with the day moved over the 1582 gap or clamped to the month length", c.fnPos(fn), n, bad)
 	}
 }
+
+// rawParts finds, for a value, the float->int conversions its data flows from (through merges,
+// +/- constants, integer conversions, results of inlined helpers and their parameters).
+func rawParts(fr *evalFrame, v ssa.Value, depth int, out map[ssa.Value]bool, seen map[ssa.Value]bool) {
+	if v == nil || depth > 24 || seen[v] {
+		return
+	}
+	seen[v] = true
+	switch x := v.(type) {
+	case *ssa.Phi:
+		for _, e := range x.Edges {
+			rawParts(fr, e, depth+1, out, seen)
+		}
+	case *ssa.BinOp:
+		if _, ok := x.Y.(*ssa.Const); ok {
+			rawParts(fr, x.X, depth+1, out, seen)
+		} else if _, ok := x.X.(*ssa.Const); ok {
+			rawParts(fr, x.Y, depth+1, out, seen)
+		} else {
+			out[v] = true // not a simple carry expression
+		}
+	case *ssa.Convert:
+		if isIntType(x.Type()) && isFloatType(x.X.Type()) {
+			out[v] = true
+			return
+		}
+		rawParts(fr, x.X, depth+1, out, seen)
+	case *ssa.Parameter:
+		if fr.parent != nil && fr.call != nil {
+			if i := paramIndex(fr.fn, x); i >= 0 && i < len(fr.call.Common().Args) {
+				rawParts(fr.parent, fr.call.Common().Args[i], depth+1, out, seen)
+				return
+			}
+		}
+		out[v] = true
+	case *ssa.Extract:
+		if call, ok := x.Tuple.(*ssa.Call); ok {
+			if h := call.Common().StaticCallee(); h != nil && h.Blocks != nil && inlineLibrary(h) {
+				for _, b := range h.Blocks {
+					for _, ins := range b.Instrs {
+						if ret, ok := ins.(*ssa.Return); ok && x.Index < len(ret.Results) {
+							rawParts(&evalFrame{fn: h, parent: fr, call: call}, ret.Results[x.Index], depth+1, out, seen)
+						}
+					}
+				}
+				return
+			}
+		}
+		out[v] = true
+	case *ssa.Call:
+		if h := x.Common().StaticCallee(); h != nil && h.Blocks != nil && inlineLibrary(h) && isIntType(x.Type()) {
+			for _, b := range h.Blocks {
+				for _, ins := range b.Instrs {
+					if ret, ok := ins.(*ssa.Return); ok && len(ret.Results) == 1 {
+						rawParts(&evalFrame{fn: h, parent: fr, call: x}, ret.Results[0], depth+1, out, seen)
+					}
+				}
+			}
+			return
+		}
+		out[v] = true
+	default:
+		out[v] = true
+	}
+}
+
+func r04_9(c *Ctx, r *Report) {
+	const rule = "R04.9"
+	r.rule(rule, "Rounding carries cascade. NewSolarFromJulianDay splits the fraction of the day into hour, minute and the rounded second (the three float-to-integer conversions the time arguments of NewSolar flow from) and hands NewSolar the normalised time: for raw parts hour 0..23, minute 0..59, second 0..60 (60 after rounding up) the evaluator follows the carries and the arguments must equal the time and the day carry of hour*3600 + minute*60 + second seconds — 23:59:60 is 00:00:00 of the next day. The parts are abstract inputs; no Julian Day is converted.")
+	fn := c.Fn(r, rule, "calendar.NewSolarFromJulianDay")
+	if fn == nil {
+		return
+	}
+	construct := "calendar.NewSolarFromJulianDay carries second -> minute -> hour -> day"
+	var call *ssa.Call
+	for _, b := range fn.Blocks {
+		for _, ins := range b.Instrs {
+			if cl, ok := ins.(*ssa.Call); ok && cl.Common().StaticCallee() != nil && fname(cl.Common().StaticCallee()) == "calendar.NewSolar" {
+				call = cl
+			}
+		}
+	}
+	if call == nil || len(call.Common().Args) != 6 {
+		r.bad(rule, construct, c.fnPos(fn), "no call of NewSolar found (undecided = fail)")
+		return
+	}
+	top := &evalFrame{fn: fn}
+	var parts [3]ssa.Value
+	for i := 0; i < 3; i++ {
+		set := map[ssa.Value]bool{}
+		rawParts(top, call.Common().Args[3+i], 0, set, map[ssa.Value]bool{})
+		if len(set) != 1 {
+			r.bad(rule, construct, c.pos(call.Pos()), fmt.Sprintf("the %s argument does not flow from one float-to-integer conversion plus carries (%d sources) (undecided = fail)", []string{"hour", "minute", "second"}[i], len(set)))
+			return
+		}
+		for v := range set {
+			if _, isConv := v.(*ssa.Convert); !isConv {
+				r.bad(rule, construct, c.pos(call.Pos()), "a time argument does not flow from a float-to-integer conversion (undecided = fail)")
+				return
+			}
+			parts[i] = v
+		}
+	}
+	if parts[0] == parts[1] || parts[1] == parts[2] || parts[0] == parts[2] {
+		r.bad(rule, construct, c.pos(call.Pos()), "hour, minute and second do not come from three different conversions (undecided = fail)")
+		return
+	}
+	runCase := func(h, m, s int64) (absSolar, string) {
+		var leaf leafX
+		leaf = func(fr *evalFrame, v ssa.Value) (interface{}, bool) {
+			switch v {
+			case parts[0]:
+				return h, true
+			case parts[1]:
+				return m, true
+			case parts[2]:
+				return s, true
+			}
+			if fr.parent == nil && len(fn.Params) == 1 && v == ssa.Value(fn.Params[0]) {
+				return float64(2460000.25), true // any day number; the fraction is not used: the three parts are abstract
+			}
+			if cl, ok := v.(*ssa.Call); ok && cl.Common().StaticCallee() != nil && fname(cl.Common().StaticCallee()) == "calendar.NewSolar" {
+				var a []int64
+				for _, x := range cl.Common().Args {
+					o, ok := evalWith(fr, x, leaf)
+					k, isI := o.(int64)
+					if !ok || !isI {
+						return nil, false
+					}
+					a = append(a, k)
+				}
+				return absSolar{0, 0, a[2], a[3], a[4], a[5]}, true
+			}
+			return nil, false
+		}
+		ev := &evaluator{inline: inlineLibrary, leaf: leaf}
+		res, outcome := ev.run(fn, nil, nil, nil, nil)
+		if outcome != "return" || len(res) != 1 {
+			return absSolar{}, "not followed: " + outcome + " " + ev.fail
+		}
+		sol, ok := res[0].(absSolar)
+		if !ok {
+			return absSolar{}, "the result is not a NewSolar call"
+		}
+		return sol, ""
+	}
+	base, msg := runCase(0, 0, 0)
+	var bad []string
+	n := 0
+	if msg != "" {
+		bad = append(bad, msg)
+	} else {
+		for h := int64(0); h < 24 && len(bad) < 4; h++ {
+			for _, m := range []int64{0, 1, 30, 58, 59} {
+				for _, s := range []int64{0, 1, 30, 59, 60} {
+					got, msg := runCase(h, m, s)
+					n++
+					total := h*3600 + m*60 + s
+					want := absSolar{0, 0, base.d + total/86400, total % 86400 / 3600, total % 3600 / 60, total % 60}
+					if msg != "" {
+						bad = append(bad, msg)
+					} else if got != want {
+						bad = append(bad, fmt.Sprintf("raw %02d:%02d:%02d becomes day+%d %02d:%02d:%02d, expected day+%d %02d:%02d:%02d", h, m, s, got.d-base.d, got.h, got.mi, got.s, want.d-base.d, want.h, want.mi, want.s))
+					}
+				}
+			}
+		}
+	}
+	sort.Strings(bad)
+	r.check(len(bad) == 0 && n == 600, rule, construct, c.pos(call.Pos()), fmt.Sprintf("%d raw (hour, minute, second) triples followed; deviations: %v", n, headList(dedupe(bad), 3)))
+}
